@@ -18,7 +18,9 @@ RULE = ("one run = 1-4 instances of 1-2 tape-generated device classes with devic
         "pickle; shared arrays/values travel by identity); parent and child then alternate "
         "strictly through a command/acknowledge pair of device variables: the parent writes "
         "drawn values, the child's Device.update copies them into echo variables and writes "
-        "its own values, the parent reads both; 3-10 rounds; all variables' byte ranges must "
+        "its own values, the parent reads both; a further variable per format is written by "
+        "both sides in turn from two-value pools, so that a value recurs after the other side "
+        "overwrote it; 3-10 rounds; all variables' byte ranges must "
         "be disjoint; strict alternation, no race is part of the property; distinct = "
         "distinct (declarations, values) digests; non-trivial = at least 2 rounds completed")
 COMPONENTS = {
@@ -44,12 +46,25 @@ def gen_update(self):
     for k in range(self.nvars):
         setattr(self, f"echo{k}", getattr(self, f"pw{k}"))
         setattr(self, f"cw{k}", child_value(self.fmts[k], cmd, k, self.seed))
+        # a variable both sides write in turn: report what the parent left there, then
+        # overwrite it with one of two values (so that values recur across rounds)
+        setattr(self, f"esh{k}", getattr(self, f"sh{k}"))
+        setattr(self, f"sh{k}", child_shared(self.fmts[k], cmd, k, self.seed))
     self.ack = cmd
 
 
 def child_value(fmt, cmd, k, seed):
     x = (cmd * 2654435761 + k * 40503 + seed * 97) & 0xffffffffffffffff
     return shape(fmt, x)
+
+
+def child_shared(fmt, cmd, k, seed):
+    return shape(fmt, ((cmd // 2 + k) % 2 * 0x5bd1e995 + seed * 131 + k * 7 + 3)
+                 & 0xffffffffffffffff)
+
+
+def parent_shared(fmt, choice, k, seed):
+    return shape(fmt, (choice * 0x85ebca6b + seed * 257 + k * 11 + 1) & 0xffffffffffffffff)
 
 
 def shape(fmt, x):
@@ -97,6 +112,8 @@ def make_class(name, fmts, seed, base_fmts=None):
         ns[f"pw{k}"] = DeviceVar(f, write=True)
         ns[f"echo{k}"] = DeviceVar(f)
         ns[f"cw{k}"] = DeviceVar(f)
+        ns[f"sh{k}"] = DeviceVar(f, write=True)
+        ns[f"esh{k}"] = DeviceVar(f)
     cls = type(name, bases, ns)
     cls.__module__ = __name__
     cls.__qualname__ = name
@@ -154,7 +171,7 @@ def run(tape, scenario):
             ranges = []
             for di, d in enumerate(devices):
                 for name in ["cmd", "ack"] + [f"{p}{k}" for k in range(d.nvars)
-                                              for p in ("pw", "echo", "cw")]:
+                                              for p in ("pw", "echo", "cw", "sh", "esh")]:
                     fmt = type(d).__dict__[name].fmt
                     pos = d.__dict__[name]
                     ranges.append((pos, pos + (8 if fmt == "x" else struct.calcsize(fmt)),
@@ -176,6 +193,7 @@ def run(tape, scenario):
         try:
             for r in range(1, rounds + 1):
                 written = {}
+                shared = {}
                 for di, d in enumerate(devices):
                     for k, f in enumerate(d.fmts):
                         v = shape(f, tape.draw("c29/value", 1 << 30) * 2654435761
@@ -183,6 +201,9 @@ def run(tape, scenario):
                         setattr(d, f"pw{k}", v)
                         written[(di, k)] = v
                         log.update(repr((di, k, v)).encode())
+                        sv = parent_shared(f, tape.draw("c29/shared-choice", 2), k, d.seed)
+                        setattr(d, f"sh{k}", sv)
+                        shared[(di, k)] = sv
                 for d in devices:
                     d.cmd = r
                 t0 = loop.time()
@@ -209,6 +230,20 @@ def run(tape, scenario):
                             viol("parent-read-differs",
                                  f"round {r} device {di} var {k} ({f}): child wrote {want!r}, "
                                  f"the parent reads {cw!r}", fmt=f)
+                        esh = getattr(d, f"esh{k}")
+                        if not same(f, esh, shared[(di, k)]):
+                            viol("child-read-differs",
+                                 f"round {r} device {di} shared var {k} ({f}): parent wrote "
+                                 f"{shared[(di, k)]!r} (after the child's "
+                                 f"{child_shared(f, r - 1, k, d.seed)!r}), the child read {esh!r}",
+                                 fmt=f, shared=True)
+                        sh = getattr(d, f"sh{k}")
+                        want = child_shared(f, r, k, d.seed)
+                        if not same(f, sh, want):
+                            viol("parent-read-differs",
+                                 f"round {r} device {di} shared var {k} ({f}): child wrote "
+                                 f"{want!r} over the parent's {shared[(di, k)]!r}, the parent "
+                                 f"reads {sh!r}", fmt=f, shared=True)
                         back = getattr(d, f"pw{k}")
                         if not same(f, back, written[(di, k)]):
                             viol("own-write-changed", f"round {r} device {di} var {k} ({f}): "
